@@ -24,6 +24,10 @@ def fnum(x):
 
 
 def run(ctx):
+    from ..shared import state_alias_rule as _sar
+
+    # measures, centroids and integrals are those of the stored geometry: no query writes the stored coordinates through an alias
+    ctx.attempt(_sar, ctx, 'R7.15', scope=lambda f, _s=('EasyFEA.FEM._group_elem', 'EasyFEA.FEM._mesh'): f.module.name.startswith(_s), min_instances=50)
     from . import e2e_rules as _e2e
 
     ctx.attempt(_e2e.geometry_rule, ctx, 'R7.E1')
